@@ -265,7 +265,9 @@ fn get_unwidened_start(mem: &[u8], start: usize) -> Option<[u8; 2]> {
     if start < 2 || mem[start - 1] != b'\0' {
         None
     } else {
-        Some([mem[start - 2], mem[start]])
+        // Only the previous byte matters to compute the start state. The validation can start
+        // at the very end of the input (a literal can be empty), where there is no current byte.
+        Some([mem[start - 2], mem.get(start).copied().unwrap_or(b'\0')])
     }
 }
 
